@@ -168,6 +168,7 @@ extern "C" void harness_run()
   int nthr = 1 + (int)sim::draw(th ? 4 : 3);
   size_t budget = th ? 400000 : 120000;
   if (nc.sndbuf <= 7 || nc.mss <= 3 || nc.rcvbuf <= 7) budget = th ? 6000 : 2500; // tiny windows: every byte costs scheduling points
+  else if (nc.sndbuf <= 64 || nc.rcvbuf <= 64) budget = std::min<size_t>(budget, 100000); // 64-byte windows: thousands of round trips per 100 KB
   if (w.tls) budget = std::min<size_t>(budget, th ? 150000 : 50000);
   w.plan.resize(nthr);
   size_t totalPlanned = 0;
